@@ -50,6 +50,8 @@ func init() {
 			Run: func(P *Program, R *Report) { rangeSizesRule(P, R, "C12.d") }},
 		Rule{ID: "C12.m", Explain: "the commitments C_i carried by a range proof are bases of the verified relations: the structure check accepts only if every C_i is an element of the group - 0 < C_i < N (a C_i that is zero modulo N makes every reconstructed commitment zero whatever the responses, so that any inequality verifies).",
 			Run: func(P *Program, R *Report) { rangeGroupElementsRule(P, R, "C12.m") }},
+		Rule{ID: "C12.n", Explain: "a range proof carries all of its parts: in package rangeproof every slice made with a computed length and filed in a struct field (the commitments c, hiders d, v and their randomisers in ProofCommit; Cs, DResponses, VResponses in Proof) has every element visited by a full walk from 0 by 1 up to that very length (same rule as C17.k); a walk that starts at 1 leaves the first square's commitment or response nil.",
+			Run: func(P *Program, R *Report) { madeSlicesFilledRule(P, R, "C12.n", "rangeproof", 0) }},
 		Rule{ID: "C12.e", Explain: "the proven relation is built from the descriptor: base R<index> raised to -k (sign 1) or k (sign -1) on the left; S^(-v5), R<index>^(-a*sign*m) and each C_i^(d_i) on the right; C_i = R<index>^(d_i) S^(v_i).",
 			Run: func(P *Program, R *Report) { relationShapeRule(P, R) }},
 		Rule{ID: "C12.l", Explain: "the challenge covers every relation of the range proof: in CommitmentsFromSecrets and CommitmentsFromProof the list returned by each sub-relation's contribution call flows into the returned list.",
